@@ -187,6 +187,14 @@ def check(case: Dict[str, Any]) -> CaseInfo:
         if any(vocab.short_name(n) != n for n in lc):
             classes.append("short_name_merges")
     classes.append("device:" + p["device"])
+    for side in ("control", "test"):
+        cats: Dict[str, set] = {}
+        for rd in case[side]["ranks"]:
+            for r in complete_rows(rd["events"]):
+                cats.setdefault(r.name, set()).add(r.cat)
+        if any(len(v) > 1 for v in cats.values()):
+            classes.append("one_name_under_two_categories")
+            break
     nt = {"added", "deleted", "increased", "decreased", "unchanged"} <= present
     return CaseInfo(nontrivial=nt, classes=classes)
 
@@ -218,7 +226,9 @@ def _iter_sel(draw, iters: List[int]) -> Any:
 
 @st.composite
 def c17_case(draw):
-    o = Opts(steps=[2, 1, 3], w_launch=5, w_sync=1, w_op=6, max_top=4, annotations=False, memcpy=False, streams=2, device_sync=False, event_sync=False,
+    # annotations may carry the name of an operator: one name under two event categories (the table has one row per *name*)
+    o = Opts(steps=[2, 1, 3], w_launch=5, w_sync=1, w_op=6, max_top=4, annotations=True, annotation_weight=1,
+             annotation_names=OP_NAMES[:2] + ["my_region"], memcpy=False, streams=2, device_sync=False, event_sync=False,
              second_thread=True, op_names=OP_NAMES, kernel_names=KERNELS, faults=True)
     control = draw(sim_case(o, max_ranks=3, nranks_choices=[3, 1, 2, 3]))
     test = draw(sim_case(o, max_ranks=3, nranks_choices=[1, 3, 2]))
@@ -244,5 +254,5 @@ def campaigns(tier: str) -> List[Campaign]:
                      required_classes={"class:added": 0.3, "class:deleted": 0.3, "class:increased": 0.12, "class:decreased": 0.12,
                                        "class:unchanged": 0.3, "multi_rank_selection": 0.1, "short_names": 0.2,
                                        "short_name_merges": 0.1, "proper_rank_subset": 0.08,
-                                       "same_label_ops_diff_first": 0.08},
+                                       "same_label_ops_diff_first": 0.08, "one_name_under_two_categories": 0.2},
                      sample_view=view)]
